@@ -30,6 +30,36 @@ func init() {
 
 // ccelMeasured walks a crypto-agile TCG event log and replays SHA-384 digests per register.
 func ccelMeasured(log []byte) (regs [4][48]byte, measured [4]bool, events int, ok bool) {
+	regs, measured, events, _, ok = ccelWalk(log)
+	return
+}
+
+// ccelAppend writes one more SHA-384 event (EV_EVENT_TAG) for CC measurement register idx at the end of the
+// events of log (into its padding) and returns the new log.
+func ccelAppend(log []byte, idx uint32, data []byte) ([]byte, bool) {
+	_, _, _, end, ok := ccelWalk(log)
+	if !ok {
+		return nil, false
+	}
+	d := sha512.Sum384(data)
+	var ev []byte
+	le := binary.LittleEndian
+	ev = le.AppendUint32(ev, idx)
+	ev = le.AppendUint32(ev, 6)
+	ev = le.AppendUint32(ev, 1)
+	ev = le.AppendUint16(ev, 0x000c)
+	ev = append(ev, d[:]...)
+	ev = le.AppendUint32(ev, uint32(len(data)))
+	ev = append(ev, data...)
+	if end+len(ev) > len(log) {
+		return nil, false
+	}
+	out := append([]byte(nil), log...)
+	copy(out[end:], ev)
+	return out, true
+}
+
+func ccelWalk(log []byte) (regs [4][48]byte, measured [4]bool, events int, end int, ok bool) {
 	off := 0
 	u32 := func() (uint32, bool) {
 		if off+4 > len(log) {
@@ -54,6 +84,7 @@ func ccelMeasured(log []byte) (regs [4][48]byte, measured [4]bool, events int, o
 	off += int(sz)
 	algSize := map[uint16]int{0x0004: 20, 0x000b: 32, 0x000c: 48, 0x000d: 64, 0x0012: 32}
 	for off+12 <= len(log) {
+		end = off
 		idx, _ := u32()
 		typ, _ := u32()
 		cnt, _ := u32()
@@ -81,6 +112,7 @@ func ccelMeasured(log []byte) (regs [4][48]byte, measured [4]bool, events int, o
 			return
 		}
 		off += int(esz)
+		end = off
 		events++
 		if idx >= 1 && idx <= 4 && d384 != nil {
 			h := sha512.New384()
@@ -90,7 +122,7 @@ func ccelMeasured(log []byte) (regs [4][48]byte, measured [4]bool, events int, o
 			measured[idx-1] = true
 		}
 	}
-	return regs, measured, events, events > 0
+	return regs, measured, events, end, events > 0
 }
 
 type c18fault struct {
@@ -122,6 +154,15 @@ func runC18(r *mc.Run) {
 		}
 	}
 	r.Set("event_log", map[string]any{"events": nev, "measured_rtmrs": measured})
+	// a second log: the sample plus one run-time event for CC MR index 4 (RTMR3), so that every register is measured
+	ccel2, ok2 := ccelAppend(ccelBytes, 4, []byte("verif: run-time measurement into RTMR3"))
+	regs2, measured2, _, _ := ccelMeasured(ccel2)
+	if !ok2 || !measured2[3] || measured2 != [4]bool{true, true, true, true} && !(measured[0] && measured[1] && measured[2]) {
+		r.HarnessError("C18: cannot append an RTMR3 event to the sample log")
+		return
+	}
+	logs := [][]byte{ccelBytes, ccel2}
+	measuredBy := [][4]bool{measured, measured2}
 	w := world.Honest("T")
 	// collateral that matches the sample quote's TD body, so that the verification gate can also be
 	// exercised with collateral and revocation checking switched on
@@ -263,16 +304,16 @@ func runC18(r *mc.Run) {
 			o.Validation.TdQuoteBodyOptions.AnyMrTd = [][]byte{flip(cos[48+136:48+184], 9)}
 		}},
 	}
-	type c18case struct{ v, p, bit int }
+	type c18case struct{ v, p, bit, lg int }
 	var cases []c18case
 	for v := range vfaults {
 		for p := range pfaults {
-			cases = append(cases, c18case{v, p, -1})
+			cases = append(cases, c18case{v, p, -1, 0})
 		}
 	}
 	nbits := 4 * 384
 	for b := 0; b < nbits; b++ {
-		cases = append(cases, c18case{0, 0, b})
+		cases = append(cases, c18case{0, 0, b, 0})
 	}
 	// bits combined with one fault of each gate (every 8th bit quick, all thorough)
 	step := 8
@@ -281,7 +322,7 @@ func runC18(r *mc.Run) {
 	}
 	for b := 0; b < nbits; b += step {
 		for _, vp := range [][2]int{{2, 0}, {7, 0}, {0, 1}, {0, 3}, {5, 10}} {
-			cases = append(cases, c18case{vp[0], vp[1], b})
+			cases = append(cases, c18case{vp[0], vp[1], b, 0})
 		}
 	}
 	// whole-register values a shortcut might treat specially: all zero (the reset value), all 0xFF, another
@@ -290,15 +331,28 @@ func runC18(r *mc.Run) {
 	for i := 0; i < 4; i++ {
 		for k := range specials {
 			for _, vp := range [][2]int{{0, 0}, {2, 0}, {0, 1}} {
-				cases = append(cases, c18case{vp[0], vp[1], nbits + 10*i + k})
+				cases = append(cases, c18case{vp[0], vp[1], nbits + 10*i + k, 0})
 			}
+		}
+	}
+	// the log with an RTMR3 event: baseline, every bit of RTMR3, the special values of every register, every 8th
+	// bit of the others, one fault of each gate
+	cases = append(cases, c18case{0, 0, -1, 1}, c18case{2, 0, -1, 1}, c18case{0, 1, -1, 1})
+	for b := 0; b < nbits; b++ {
+		if b/384 == 3 || b%8 == 0 {
+			cases = append(cases, c18case{0, 0, b, 1})
+		}
+	}
+	for i := 0; i < 4; i++ {
+		for k := range specials {
+			cases = append(cases, c18case{0, 0, nbits + 10*i + k, 1})
 		}
 	}
 	if r.Thorough() {
 		for v := range vfaults {
 			for p := range pfaults {
 				for b := 0; b < nbits; b += 16 {
-					cases = append(cases, c18case{v, p, b})
+					cases = append(cases, c18case{v, p, b, 0})
 				}
 			}
 		}
@@ -316,10 +370,17 @@ func runC18(r *mc.Run) {
 		} else if c.bit >= 0 {
 			id += fmt.Sprintf(",rtmr%d^bit%d", c.bit/384, c.bit%384)
 		}
+		if c.lg == 1 {
+			id = "ccel+rtmr3-event/" + id[5:]
+		}
 		if !r.Want(id) {
 			return
 		}
+		measured := measuredBy[c.lg]
 		p := baseParts()
+		if c.lg == 1 {
+			copy(p.Body[328+48*3:376+48*3], regs2[3][:])
+		}
 		o := baseOpts()
 		changed := c.bit >= 0
 		if special {
@@ -363,7 +424,7 @@ func runC18(r *mc.Run) {
 		var err error
 		func() {
 			defer world.Recover(&err)
-			st, err = rtmr.ParseCcelWithTdQuote(ccelBytes, tableBytes, q, o)
+			st, err = rtmr.ParseCcelWithTdQuote(logs[c.lg], tableBytes, q, o)
 		}()
 		// reference gates
 		gateV := c.v == 0 || c.v >= nControlsFrom
